@@ -1,7 +1,8 @@
 (* C16 — Wallet and announcement state follow the best chain.
    Statements only; every proof is [exact lemma].
 
-   The model (Model.v) corresponds to /repo WITH the four repairs fixes/C16-*.patch:
+   The model (Model.v) corresponds to /repo HEAD, which contains the four repairs found with this
+   check (fixes/C16-*.patch, committed as 34e7e39, 3cf7e64, 54e02b6, 4115bc1):
      - host/settings/update.go compares the reverted block's own index (not cru.State.Index, the
        parent) with the recorded announcement index;
      - ResetChainState also clears last_v2_announce_hash;
@@ -9,7 +10,8 @@
        adds the block's own outputs (an output spent or created at its maturity height);
      - updateBalanceMetric never records a change before the newest data point of the series
        (block timestamps are not monotone across reverts).
-   On the unpatched code each of these is a violation that the harness monitors reproduce.
+   On the code before these commits each of them is a violation that the harness monitors
+   reproduce (directed cases 0-8 of the store-level harness).
 
    Vocabulary (Proofs.v):  [reach s C] — s is reachable from the initial state by any sequence of
    batches (reverts then applies, as index.Manager.syncDB issues them) and resets, C is the best
